@@ -250,7 +250,7 @@ def drive(run, tasks):
             for i, req in impl_reqs:
                 spans.append((i, len(allc), len(allc) + len(req[2])))
                 allc += [{'fn': req[1], 'case': c} for c in req[2]]
-            outs = common.run_impl('impl_c14', 'multi', allc, limit=120, chunksize=6)
+            outs = common.run_impl('impl_c14', 'multi', allc, limit=40, chunksize=6)
             for i, a, b in spans:
                 answers[i] = outs[a:b]
             tick('implementation calls: %d' % len(allc))
@@ -847,8 +847,26 @@ def gen_marginbox_doc(rng):
             b['padding_' + sd] = rng.choice([0, 0, 0, 2, 5, 12]) if rng.random() < 0.4 else 0
             b['border_' + sd] = rng.choice([0, 0, 1, 3]) if rng.random() < 0.25 else 0
         boxes[at] = b
-    css = '@page{size:%dpx %dpx;margin:%dpx %dpx %dpx %dpx;padding:%dpx;border:%dpx solid;' % (
-        W, H, pm['top'], pm['right'], pm['bottom'], pm['left'], ppad, pbor)
+    page = dict(width='auto', height='auto', min_width=0, max_width='inf', min_height=0, max_height='inf')
+    if rng.random() < 0.3:
+        for sd in ('top', 'right', 'bottom', 'left'):
+            if rng.random() < 0.4:
+                pm[sd] = 'auto'
+        if rng.random() < 0.6:
+            page['width'] = rng.choice([100, 150, 200, W - 50])
+        if rng.random() < 0.5:
+            page['height'] = rng.choice([80, 120, H - 60])
+        if rng.random() < 0.3:
+            page['min_width'] = rng.choice([120, 260, W + 40])
+        if rng.random() < 0.3:
+            page['max_width'] = rng.choice([90, 180, 300])
+        if rng.random() < 0.2:
+            page['max_height'] = rng.choice([60, 150])
+    css = '@page{size:%dpx %dpx;margin:%s %s %s %s;padding:%dpx;border:%dpx solid;' % (
+        W, H, *[('auto' if pm[sd] == 'auto' else '%dpx' % pm[sd]) for sd in ('top', 'right', 'bottom', 'left')], ppad, pbor)
+    for k, v in page.items():
+        if v not in ('auto', 'inf', 0):
+            css += '%s:%dpx;' % (k.replace('_', '-'), v)
     for at, b in boxes.items():
         d = ['content:%s' % b['content']]
         for prop in ('width', 'height'):
@@ -863,7 +881,7 @@ def gen_marginbox_doc(rng):
                 d.append('border-%s:%dpx solid' % (sd, b['border_' + sd]))
         css += '@%s{%s}' % (at, ';'.join(d))
     css += '}' + BASE % ''
-    return dict(html='<style>%s</style><p>aa</p>' % css, W=W, H=H, pm=pm, ppad=ppad, pbor=pbor, boxes=boxes)
+    return dict(html='<style>%s</style><p>aa</p>' % css, W=W, H=H, pm=pm, ppad=ppad, pbor=pbor, boxes=boxes, page=page)
 
 
 ZERO_BOX = dict(content=None, words=None)
@@ -911,37 +929,35 @@ def side_case(doc, page, prefix):
 
 
 def judge_marginbox_doc(doc, page):
+    """Python part: which boxes exist, where the margin areas are, text wrapping; sizes go through Coq"""
     bad = []
     E = 1e-6
     exp = sorted('@' + a for a, b in doc['boxes'].items() if b['words'] is not None)
     got = sorted(b['at'] for b in page['boxes'])
     if exp != got:
         bad.append(('margin-box-generated-iff-content', 'generated %s, expected %s' % (got, exp)))
-    W, H, pm = doc['W'], doc['H'], doc['pm']
-    # page box: content area is what remains
-    extra = 2 * (doc['ppad'] + doc['pbor'])
-    if abs(page['width'] - (W - pm['left'] - pm['right'] - extra)) > E or abs(page['height'] - (H - pm['top'] - pm['bottom'] - extra)) > E \
-            or abs(page['root_x'] - (pm['left'] + doc['ppad'] + doc['pbor'])) > E or abs(page['root_y'] - (pm['top'] + doc['ppad'] + doc['pbor'])) > E \
-            or abs(page['mw'] - W) > E or abs(page['mh'] - H) > E:
-        bad.append(('page-content-area', 'page %sx%s margins %s: content area %sx%s at (%s, %s)' % (
-            W, H, pm, page['width'], page['height'], page['root_x'], page['root_y'])))
+    extra = doc['ppad'] + doc['pbor']
+    if abs(page['root_x'] - (page['ml'] + extra)) > E or abs(page['root_y'] - (page['mt'] + extra)) > E \
+            or abs(page['root_mw'] - page['width']) > E:
+        bad.append(('page-content-area', 'root box at (%s, %s) width %s; page margins l%s t%s, padding+border %s, content width %s' % (
+            page['root_x'], page['root_y'], page['root_mw'], page['ml'], page['mt'], extra, page['width'])))
+    bw = page['width'] + 2 * extra
+    bh = page['height'] + 2 * extra
+    area = {'top': (page['ml'], 0), 'bottom': (page['ml'], page['mt'] + bh), 'left': (0, page['mt']), 'right': (page['ml'] + bw, page['mt'])}
     for r in page['boxes']:
         at = r['at'][1:]
-        ow = r['ml'] + r['bl'] + r['pl'] + r['w'] + r['pr'] + r['br'] + r['mr']
-        oh = r['mt'] + r['bt'] + r['pt'] + r['h'] + r['pb'] + r['bb'] + r['mb']
-        # fixed dimension: outer size = the page margin on that side (css-page-3 5.3.2.4)
-        if at.startswith('top') or at.startswith('bottom'):
-            side = 'top' if at.startswith('top') else 'bottom'
-            y0 = 0 if side == 'top' else H - pm['bottom']
-            if abs(oh - pm[side]) > E or abs(r['y'] - y0) > E:
-                bad.append(('margin-box-fixed-sum', '@%s: outer height %s at y=%s, margin area is %s high at y=%s' % (at, oh, r['y'], pm[side], y0)))
-        if at.startswith('left') or at.startswith('right') or at.endswith('corner'):
-            side = 'left' if ('left' in at.split('-')[0:1] or at.endswith('left-corner')) else 'right'
-            if at.endswith('corner'):
-                side = 'left' if 'left' in at else 'right'
-            x0 = 0 if side == 'left' else W - pm['right']
-            if abs(ow - pm[side]) > E or abs(r['x'] - x0) > E:
-                bad.append(('margin-box-fixed-sum', '@%s: outer width %s at x=%s, margin area is %s wide at x=%s' % (at, ow, r['x'], pm[side], x0)))
+        if at.endswith('corner'):
+            x0 = 0 if 'left' in at else page['ml'] + bw
+            y0 = 0 if 'top' in at else page['mt'] + bh
+            if abs(r['x'] - x0) > E or abs(r['y'] - y0) > E:
+                bad.append(('margin-box-corner-position', '@%s at (%s, %s), corner area starts at (%s, %s)' % (at, r['x'], r['y'], x0, y0)))
+        else:
+            prefix = at.split('-')[0]
+            x0, y0 = area[prefix]
+            if prefix in ('top', 'bottom') and abs(r['y'] - y0) > E:
+                bad.append(('margin-box-side-position', '@%s at y=%s, its margin area starts at y=%s' % (at, r['y'], y0)))
+            if prefix in ('left', 'right') and abs(r['x'] - x0) > E:
+                bad.append(('margin-box-side-position', '@%s at x=%s, its margin area starts at x=%s' % (at, r['x'], x0)))
         b = doc['boxes'][at]
         if b['words'] and (at.startswith('top') or at.startswith('bottom')) and not at.endswith('corner'):
             maxc = (sum(len(w) for w in b['words']) + len(b['words']) - 1) * 10
@@ -953,6 +969,50 @@ def judge_marginbox_doc(doc, page):
             if b['width'] == 'auto' and r['w'] < minc - E:
                 bad.append(('margin-box-below-min-content', '@%s: auto width %s < min-content %s' % (at, r['w'], minc)))
     return bad
+
+
+def fixed_cases(doc, page):
+    """Coq cases (fixed_render_judge) for the fixed dimension(s) of every generated margin box"""
+    out = []
+    for r in page['boxes']:
+        at = r['at'][1:]
+        b = doc['boxes'][at]
+        prefix = at.split('-')[0]
+        dims = []
+        if at.endswith('corner'):
+            dims = [('v', page['mt'] if 'top' in at else page['mb'], 'top' in at), ('h', page['ml'] if 'left' in at else page['mr'], 'left' in at)]
+        elif prefix in ('top', 'bottom'):
+            dims = [('v', page['mt'] if prefix == 'top' else page['mb'], prefix == 'top')]
+        else:
+            dims = [('h', page['ml'] if prefix == 'left' else page['mr'], prefix == 'left')]
+        for axis, outer, tol in dims:
+            a_, b_, dim = ('top', 'bottom', 'height') if axis == 'v' else ('left', 'right', 'width')
+            pb = b['padding_' + a_] + b['padding_' + b_] + b['border_' + a_] + b['border_' + b_]
+            used = (r['mt'], r['h'], r['mb']) if axis == 'v' else (r['ml'], r['w'], r['mr'])
+            out.append(('((%s, %s), (%s, %s, %s), %s, (%s, %s, %s))' % (
+                qlit(Fraction(outer)), qlit(pb), oq(str(b['margin_' + a_])), oq(str(b[dim])), oq(str(b['margin_' + b_])), blit(tol),
+                *[qlit(Fraction(x)) for x in used]), at, axis))
+    return out
+
+
+def page_cases(doc, page):
+    """Coq cases (page_render_judge) for the two dimensions of the page box"""
+    pg, pm = doc['page'], doc['pm']
+    extra = 2 * (doc['ppad'] + doc['pbor'])
+    def mx(v):
+        return 'None' if v == 'inf' else '(Some %s)' % qlit(v)
+    return [
+        '((%s, %s), (%s, %s, %s), (%s, %s), (%s, %s, %s))' % (
+            qlit(doc['W']), qlit(extra), oq(str(pm['left'])), oq(str(pg['width'])), oq(str(pm['right'])), qlit(pg['min_width']), mx(pg['max_width']),
+            qlit(Fraction(page['ml'])), qlit(Fraction(page['width'])), qlit(Fraction(page['mr']))),
+        '((%s, %s), (%s, %s, %s), (%s, %s), (%s, %s, %s))' % (
+            qlit(doc['H']), qlit(extra), oq(str(pm['top'])), oq(str(pg['height'])), oq(str(pm['bottom'])), qlit(pg['min_height']), mx(pg['max_height']),
+            qlit(Fraction(page['mt'])), qlit(Fraction(page['height'])), qlit(Fraction(page['mb'])))]
+
+
+PAGE_SIZES_MM = {'a5': (148, 210), 'a4': (210, 297), 'a3': (297, 420), 'b5': (176, 250), 'b4': (250, 353),
+                 'jis-b5': (182, 257), 'jis-b4': (257, 364)}
+PAGE_SIZES_IN = {'letter': (8.5, 11), 'legal': (8.5, 14), 'ledger': (11, 17)}
 
 
 def gen_pdf_doc(rng):
@@ -1120,7 +1180,7 @@ def t_strings_render(run, rng, T):
 def t_marginbox_render(run, rng, T):
     docs = [gen_marginbox_doc(rng) for _ in range(1000 if T else 260)]
     outs = yield impl('marginbox_render', [{'html': d['html']} for d in docs])
-    cases, meta = [], []
+    cases, meta, fcases, fmeta, pcases, pmeta = [], [], [], [], [], []
     nb = 0
     sig_seen = {}
     for d, (st, o) in zip(docs, outs):
@@ -1139,8 +1199,29 @@ def t_marginbox_render(run, rng, T):
             if c is None or isinstance(c, tuple):
                 continue
             cases.append(c); meta.append((d, prefix))
-    masks = yield coq('c14mbr', PREQ, 'Q * (mbox * mbox * mbox) * (bool * bool * bool) * ((Q * Q * Q) * (Q * Q * Q) * (Q * Q * Q)) * (Q * Q * Q)',
-                              cases, 'side_judge', per_file=60)
+        for c, at, axis in fixed_cases(d, page):
+            fcases.append(c); fmeta.append((d, at, axis))
+        for c, axis in zip(page_cases(d, page), 'hv'):
+            pcases.append(c); pmeta.append((d, axis))
+    masks, fmasks, pmasks = yield ('evals', [
+        coq('c14mbr', PREQ, 'Q * (mbox * mbox * mbox) * (bool * bool * bool) * ((Q * Q * Q) * (Q * Q * Q) * (Q * Q * Q)) * (Q * Q * Q)',
+            cases, 'side_judge', per_file=60),
+        coq('c14mbf', PREQ, '(Q * Q) * (oq * oq * oq) * bool * (Q * Q * Q)', fcases, 'fixed_render_judge', per_file=300),
+        coq('c14mbp', PREQ, '(Q * Q) * (oq * oq * oq) * (Q * oq) * (Q * Q * Q)', pcases, 'page_render_judge', per_file=300)])
+    for msk, mt, name, what, sig in (
+            (fmasks, fmeta, 'fixed dimension', 'margin box fixed dimension: margins + padding/border + size != page margin, or specified size changed', 'margin-box-fixed-sum'),
+            (pmasks, pmeta, 'page box', 'page box: margins + padding/border + content size do not add up to the page size', 'page-content-area')):
+        if isinstance(msk, Exception):
+            run.oblige('corr:marginbox-render/%s' % name, False, str(msk))
+            continue
+        bad = [x for x, m in zip(mt, msk) if m & 1]
+        run.oblige('corr:marginbox-render/%s(model vs rendered boxes)' % name, not bad,
+                   'first: %s of %s' % ((bad[0][1:], bad[0][0]['html']) if bad else ('', '')))
+        for x, m in zip(mt, msk):
+            if m & 2:
+                run.fail('marginbox-render: %s (%s)' % (what, x[1:]), {'stream': 'marginbox-render', 'html': x[0]['html'], 'what': x[1:]},
+                         signature=sig)
+                break
     if isinstance(masks, Exception):
         run.oblige('corr:marginbox-render', False, str(masks))
     else:
@@ -1159,6 +1240,34 @@ def t_marginbox_render(run, rng, T):
                     rule='page sizes x margins {0..80} x page padding/border; each of the 16 margin boxes present with density '
                          '0.15..1, content of 1-9 words (a-h letters, test font), empty, normal or none; explicit width/height, '
                          'auto/px/negative margins, padding, borders')
+
+
+def t_sizes(run, rng, T):
+    """named page sizes and orientations (css-page-3 7.1), monitor in Python"""
+    cases = []
+    for name, (w, h) in list(PAGE_SIZES_MM.items()) + list(PAGE_SIZES_IN.items()):
+        k = 96 / 25.4 if name in PAGE_SIZES_MM else 96
+        for orient in ('', 'portrait', 'landscape'):
+            ew, eh = (w * k, h * k) if orient != 'landscape' else (h * k, w * k)
+            text = ('%s %s' % (name, orient)).strip() if rng.random() < 0.5 or not orient else '%s %s' % (orient, name)
+            cases.append((text, ew, eh))
+    for w, h in ((3, 5), (7, 7)):
+        cases.append(('%din %dcm' % (w, h), w * 96, h * 96 / 2.54))
+    cases.append(('landscape', 297 * 96 / 25.4, 210 * 96 / 25.4))
+    cases.append(('portrait', 210 * 96 / 25.4, 297 * 96 / 25.4))
+    outs = yield impl('marginbox_render', [{'html': '<style>@page{size:%s;margin:1cm 2cm}body{margin:0}</style>x' % c[0]} for c in cases])
+    for (text, ew, eh), (st, o) in zip(cases, outs):
+        if st != 'ok':
+            run.fail('size-render: render %s' % st, {'stream': 'size-render', 'size': text, 'outcome': o}, signature='crash:size')
+            continue
+        pg = o[0]
+        mlr, mtb = 2 * 96 / 2.54, 96 / 2.54
+        if abs(pg['mw'] - ew) > 1e-6 or abs(pg['mh'] - eh) > 1e-6 or abs(pg['width'] - (ew - 2 * mlr)) > 1e-6 \
+                or abs(pg['height'] - (eh - 2 * mtb)) > 1e-6:
+            run.fail('size-render: `size: %s` gives a %sx%s page (content %sx%s), expected %sx%s' % (
+                text, pg['mw'], pg['mh'], pg['width'], pg['height'], ew, eh), {'stream': 'size-render', 'size': text}, signature='page-size')
+    run.count('size-render', len(cases), [c[0] for c in cases], samples=[cases[0][0]])
+    run.stream_info('size-render', rule='every named size of css-page-3 x orientation, lengths, bare orientation; page box and content area')
 
 
 def t_pdf_render(run, rng, T):
@@ -1207,7 +1316,7 @@ def t_pdf_render(run, rng, T):
                     ':first with another bleed; page dictionaries read in a finisher (before) and from the bytes (after)')
 
 
-TASKS = [t_pages_render, t_strings_render, t_marginbox_render, t_pdf_render, t_nth, t_match, t_parse, t_cascade, t_pwh, t_cfd,
+TASKS = [t_pages_render, t_strings_render, t_marginbox_render, t_pdf_render, t_sizes, t_nth, t_match, t_parse, t_cascade, t_pwh, t_cfd,
          t_cvd, t_cvd_vertical, t_counters, t_strings]
 
 
@@ -1255,6 +1364,10 @@ def replay(data):
         if st == 'ok':
             for i, p in enumerate(o):
                 print('replay: page', i + 1, p['heads'], p['first_is_head'], p['texts'])
+        return 1
+    if stream == 'size-render':
+        (st, o), = common.run_impl('impl_c14', 'marginbox_render', [{'html': '<style>@page{size:%s;margin:1cm 2cm}body{margin:0}</style>x' % d['size']}])
+        print('replay:', st, (o[0]['mw'], o[0]['mh']) if st == 'ok' else o)
         return 1
     if stream == 'pdf-render':
         (st, o), = common.run_impl('impl_c14', 'pdf_render', [d['case']])
